@@ -192,11 +192,12 @@ end symcache
 
 /-! ### struct layout
 
-STRETCH, NOT PROVED in general:
-  `struct_layout_canonical : (∀ k, lookup kvs₁ k = lookup kvs₂ k) → structOf kvs₁ = structOf kvs₂`
-  (the slot array built by `janet_struct_put` is a function of the key/value map alone, whatever the insertion order
-  and collision pattern, any capacity, including runs that wrap around).
-What is established instead:
+PROVED in general (Value/Robin.lean, RobinUnique.lean, RobinPerm.lean): `struct_layout_canonical`,
+`struct_layout_canonical_general`, `struct_put_existing_key` below — the slot array built by `janet_struct_put` /
+`janet_struct_end` is a function of the set of accepted pairs alone, whatever the insertion order and collision pattern, any
+capacity, including runs that wrap around, ignored nil pairs, over-announced counts (rebuild).  Only insertion sequences
+that contain the SAME key twice are not covered by the general statement (see `struct_put_existing_key`).
+Also established:
   * `struct_by_slots` above: equality of structs is element-wise equality of slot arrays (proved, all inputs);
   * `struct_put_capacity`: puts never change the capacity (proved, all inputs);
   * `struct_layout_canonical_partial`: a kernel-checked exhaustive TEST — for the six key sets of
@@ -223,6 +224,24 @@ theorem struct_layout_canonical_general (raw₁ raw₂ : List (Slot N)) (proto :
     (hperm : (raw₁.filter validPair).Perm (raw₂.filter validPair)) (hdist : DistinctKeys (raw₁.filter validPair))
     (hc₁ : (raw₁.filter validPair).length ≤ c₁) (hc₂ : (raw₂.filter validPair).length ≤ c₂) :
     structOfCount c₁ raw₁ proto = structOfCount c₂ raw₂ proto := structOfCount_canonical proto hperm hdist hc₁ hc₂
+
+/-- **PROVED, all inputs** — duplicate keys: putting a key that is already in the struct never changes the layout; the
+    probe reaches the slot of the equal key without displacing anything and (with `replace`) only its value is overwritten
+    (struct.c `status == 0`).  What is NOT proved: lifting this to "the struct is a function of the final key→value map"
+    for insertion sequences WITH duplicate keys (it needs that the layout does not depend on the values, i.e. that
+    `(build l).set p (k, v')` is the build of `l` with that value changed); sequences with duplicates are covered by the
+    kernel-checked tests below and by the correspondence. -/
+theorem struct_put_existing_key (sl : List (Slot N)) (hrh : RH sl) (z : Nat) (hz : z < sl.length) (hez : ¬ Occ sl z)
+    (key value : JVal N) (p : Nat) (hp : p < sl.length) (hop : Occ sl p) (heq : contentEq key (sg sl p).1 = true)
+    (replace : Bool) :
+    putLoop sl.length replace sl.length (hm sl.length key) 0 key value (hash key) sl =
+      ((if replace then sl.set p ((sg sl p).1, value) else sl), false) := by
+  have hcap : 0 < sl.length := by omega
+  have hh := hm_lt hcap key
+  have := putLoop_dup hrh hz hez hp hop heq (value := value) replace sl.length (hm sl.length key) hh
+    (by rw [dst_self hh]; omega) (by rw [dst_self hh]; omega)
+  rw [dst_self hh] at this
+  exact this
 
 /-- … and therefore equal, with equal hashes, comparing as 0 -/
 theorem struct_by_content (kvs₁ kvs₂ : List (Slot N)) (proto : List (JVal N)) (hperm : kvs₁.Perm kvs₂)
